@@ -190,6 +190,9 @@ def cli_runs(cases, outs, n):
             p = os.path.join(d, "f%03d.slt" % i)
             open(p, "w", newline="").write(c["text"])
             paths.append(p)
+            if i % 3 == 0:
+                # a stale temp file of an earlier interrupted run, longer than what this run writes: must not leak into the result
+                open(p + ".temp", "w").write("# stale\n" + "statement ok\nselect 'left over from an interrupted run'\n\n" * (40 + len(c["text"]) // 20))
         trims = vlib.run_model("trim", [o["fmt"][1].encode("utf-8").decode("latin-1") for _, o in sel])
         hung = []
         def fmt_all():
